@@ -61,7 +61,7 @@ TEXT = {
         technique="runtime monitoring: online assertions at inspector hooks on generated hostile workloads (plain run + inspected run, release + debug-assertions lanes)",
     ),
     "C07": dict(
-        level="Held on every frame observed: recursion probes (per call kind x earlier-sibling mixes x SpecIds) must return exactly 1024, and the journal depth at every end notification must equal the depth at the matching start notification over the probes (about 1025 nested frames each) and the generated workloads; evidence lists how many frames ended in each early-return kind.",
+        level="Held on every frame observed: recursion probes (per call kind x earlier-sibling mixes x SpecIds) must return exactly 1024 (18 kinds of earlier siblings: every early return of make_call_frame / make_create_frame incl. EIP-7702 designators to codeless and precompile delegates, static violation, overflow payment, creator nonce 2^64-1, unpayable code deposit, oversized / 0xEF code, oversized init code, CREATE2 collision), and the journal depth at every end notification must equal the depth at the matching start notification over the probes (about 1025 nested frames each) and the generated workloads; evidence lists how many frames ended in each early-return kind.",
         note="Trusted: the probe contract (documented in online.rs) and the inspector callbacks as observation points. OSAKA EXT* early returns need EOF containers and are covered by the C26 workload once built.",
         technique="runtime monitoring: online assertions at inspector hooks on generated hostile workloads (plain run + inspected run, release + debug-assertions lanes)",
     ),
@@ -76,7 +76,7 @@ TEXT = {
         technique="runtime monitoring: online assertions at inspector hooks on generated hostile workloads (plain run + inspected run, release + debug-assertions lanes)",
     ),
     "C10": dict(
-        level="Held on every static frame observed: each attempted writer opcode inside a static frame must end in an error, static mode must propagate to children, and the projection of the journaled state (without warmth and touch marks) at the end of every outermost static call must equal the one at its start.",
+        level="Held on every static frame observed: each attempted writer opcode inside a static frame must end in an error, static mode must propagate to children, and the projection of the journaled state (without warmth and touch marks) at the end of every outermost static call must equal the one at its start; a directed OSAKA ladder runs a legacy STATICCALL with 45 gas amounts into EOF contracts that start with EXTCALL-with-value / TSTORE / SSTORE / LOG0 / EOFCREATE, cold and warm.",
         note="Trusted: the writer-opcode table and the projection. Touch marks are not world state (a zero-value static call legitimately touches its callee, EIP-161), so they are excluded from the comparison.",
         technique="runtime monitoring: online assertions at inspector hooks on generated hostile workloads (plain run + inspected run, release + debug-assertions lanes)",
     ),
@@ -86,7 +86,7 @@ TEXT = {
         technique="runtime monitoring: differential execution of the same workload under observing inspectors",
     ),
     "C29": dict(
-        level="Held on every event stream observed: an online grammar checker over the inspector notifications (LIFO pairing with equal inputs, one step_end per step, logs reported once and equal to the journal, nothing open at the end), also with an inspector that answers nested calls/creates itself.",
+        level="Held on every event stream observed: an online grammar checker over the inspector notifications (LIFO pairing with equal inputs, one step_end per step, logs reported once and equal to the journal, nothing open at the end), also with an inspector that answers nested calls/creates itself; a panic on the inspector path (the case completes without an inspector) is a violation of this property.",
         note="Trusted: the grammar in mon.rs. Log and self-destruct notifications are delivered after step_end of their instruction and before the next event; the checker accepts exactly that placement.",
         technique="runtime monitoring: online trace-grammar checker over inspector events",
     ),
@@ -122,7 +122,7 @@ TEXT = {
     ),
     "C20": dict(
         level="Held on every query observed (apart from the listed has_storage findings): ten wrapper configurations are asked basic/code_by_hash/storage/has_storage/block_hash (Database and DatabaseRef sides) over generated data and real commit histories, block numbers around the 256 window in pruning-triggering orders, against the plain reference.",
-        note="Trusted: the plain reference and the comparison modes (CacheDB modulo absent==empty). A wrong has_storage answer is reported without stopping the other comparisons.",
+        note="Trusted: the plain reference and the comparison modes (CacheDB modulo absent==empty, and without the storage of accounts removed by EIP-161 state clearing only - self-destructed accounts are compared). A wrong has_storage answer is reported without stopping the other comparisons.",
         technique="runtime monitoring: differential queries of every wrapper against the plain reference over generated data and commit histories",
     ),
     "C21": dict(
@@ -156,7 +156,7 @@ TEXT = {
         technique="runtime monitoring: differential direct calls against exact reference formulas (exhaustive finite sub-spaces + boundary sweeps)",
     ),
     "C01": dict(
-        level="Held on every case observed: (a) all shipped EEST state fixtures for Frontier..Prague (about 4 500 cases with a full post-state) replayed through the real Evm with an own loader and compared account by account, slot by slot; (b) the reference EVM (validated on the same fixtures in the same run) versus the real Evm on generated transactions: verdict, outcome class, gas used, refund, output, logs, created address, complete post-state.",
+        level="Held on every case observed: (a) all shipped EEST state fixtures for Frontier..Prague (about 4 500 cases with a full post-state) replayed through the real Evm with an own loader and compared account by account, slot by slot; (b) the reference EVM (validated on the same fixtures in the same run) versus the real Evm on generated transactions: verdict, outcome class, gas used, refund, output, logs, created address, complete post-state, and in lock-step every dispatched instruction (journal depth, pc, opcode, gas left, stack length and top word, memory size); one generated case in eight is a directed multi-step scenario (scenarios.rs) and one in twenty is re-run at ten gas limits between its intrinsic gas and the gas it used.",
         note="Trusted: the fixtures (outputs of the real specification); the reference EVM refevm.rs (written from the EIPs/EELS structure: whole-state snapshots, sets, BigUint ALU) which must reproduce the fixtures or the run is inconclusive; revm-precompile inside the reference (C23 judges precompiles); alloy's k256 recovery for fixture authorizations. Cases in which the reference would push a balance above 2^256-1 are outside the specification's domain and skipped (counted).",
         technique="runtime monitoring: differential execution against specification-produced fixtures and a fixture-validated reference EVM",
     ),
@@ -166,7 +166,7 @@ TEXT = {
         technique="runtime monitoring: differential verdicts on boundary-value inputs plus control-run comparison of histories",
     ),
     "C34": dict(
-        level="Held on every case observed: exact gas equality with the reference EVM (accessed sets with snapshot/restore and never-restored transaction-level sets) on directed warm/cold scenarios per Berlin+ spec and on access-heavy generated programs.",
+        level="Held on every case observed: exact gas equality with the reference EVM (accessed sets with snapshot/restore and never-restored transaction-level sets) on directed warm/cold scenarios per Berlin+ spec and on access-heavy generated programs, with the gas left compared at every dispatched instruction (lock-step trace), not only in the total.",
         note="Trusted: the reference EVM as validated by C01. Directed scenarios enumerate every constant address in revm's sources, because the property's list of pre-warmed addresses is closed.",
         technique="runtime monitoring: differential gas comparison against a fixture-validated reference on directed and generated workloads",
     ),
